@@ -332,8 +332,8 @@ def exchange(server, reqbytes, sid, complete_uploads=True, patient=False, track=
     upload, one short block; then the change of the sandbox.  Returns the trace event."""
     sb = server.sb
     sock, b, addr = first_reply(server, reqbytes, 1.5 if patient else 0.06, patient)
-    ev = {"e": "req", "sid": sid, "bytes": codes(reqbytes), "known": False, "tried": False, "completed": False,
-          "up": "", "delta": []}
+    ev = {"e": "req", "sid": sid, "bytes": codes(reqbytes[:516]), "known": False, "tried": False, "completed": False,
+          "up": "", "delta": [], "probe": False}
     upbytes = None
     if b is None:
         ev["reply"] = {"k": "none"}
